@@ -283,6 +283,7 @@ func (db *DB) basicExport(ctx context.Context, config *client.BackupConfig) (err
 								}
 
 								delete(oldForeignDoc, request.DocIDFieldName)
+								setUnsetDefaultsToNil(oldForeignDoc, foreignCol.Definition())
 								// A self referencing document is created without its reference (see basicImport),
 								// so the reference is not part of its new docID.
 								if oldForeignDoc[field.Name+request.RelatedObjectID] == foreignDoc.ID().String() {
@@ -321,6 +322,7 @@ func (db *DB) basicExport(ctx context.Context, config *client.BackupConfig) (err
 			}
 
 			delete(docM, request.DocIDFieldName)
+			setUnsetDefaultsToNil(docM, col.Definition())
 			if isSelfReference {
 				delete(docM, refFieldName)
 			}
@@ -401,4 +403,17 @@ func writeString(f *os.File, normal, pretty string, isPretty bool) error {
 		return NewErrFailedToWriteString(err)
 	}
 	return nil
+}
+
+// setUnsetDefaultsToNil writes an explicit nil for every field with a default value that the stored
+// document has no value for, so that re-creating the document from the map does not apply the default.
+func setUnsetDefaultsToNil(docMap map[string]any, def client.CollectionDefinition) {
+	for _, field := range def.GetFields() {
+		if field.DefaultValue == nil {
+			continue
+		}
+		if _, ok := docMap[field.Name]; !ok {
+			docMap[field.Name] = nil
+		}
+	}
 }
